@@ -1,6 +1,7 @@
 package otto
 
 import (
+	"regexp"
 	"strconv"
 	"time"
 )
@@ -31,8 +32,11 @@ var (
 			value: 0,
 		},
 	}
+	// 15.10.6: the RegExp prototype object is itself a regular expression (it
+	// matches the empty string); without a compiled pattern exec / test / match /
+	// replace / search / split on it dereference nil.
 	prototypeValueRegExp = regExpObject{
-		regularExpression: nil,
+		regularExpression: regexp.MustCompile(""),
 		global:            false,
 		ignoreCase:        false,
 		multiline:         false,
